@@ -266,6 +266,8 @@ class Model:
                 if g is None or g is f or g.cls is not None or g.parent is not None or not isinstance(g.node, ast.FunctionDef):
                     return None
                 return g.node
+            from .expand import inline_expression_helpers
+            na += inline_expression_helpers(fn, lambda call, f=f, lookup=lookup: (lambda g: g if g is not None and (self.functions.get(self.resolve(call.func, f.module, f) or '') or f).module is f.module else None)(lookup(call)))
             ni = inline_import_helpers(fn, lookup)
             if ni:
                 na += ni
